@@ -14,7 +14,7 @@ INTROSPECTION = "{ __schema { queryType { name } types { name kind } } __typenam
 import re
 def _msg(m): return re.sub(r"0x[0-9a-fA-F]+", "0x?", m or "")
 def canon(resp):
-    return json.dumps({"data": enc(resp.get("data")), "errors": sorted(json.dumps([e.get("path"), _msg(e.get("message")), sorted([l["line"], l["column"]] for l in e.get("locations") or [])]) for e in resp.get("errors") or [])}, sort_keys=True)
+    return _msg(json.dumps({"data": enc(resp.get("data")), "errors": sorted(json.dumps([e.get("path"), _msg(e.get("message")), sorted([l["line"], l["column"]] for l in e.get("locations") or [])]) for e in resp.get("errors") or [])}, sort_keys=True))
 
 def explore(tier, seed):
     rng = random.Random(seed * 17 + 15)
@@ -35,10 +35,12 @@ def explore(tier, seed):
         pool = []
         for _ in range(8):
             dg = DocGen(sg, rng, op_kinds=("query", "mutation") if sg.mutation else ("query",))
+            dg.nested_vars = True; dg.repeat_with_directive = True
             q, ops, opvars = dg.document(n_ops=rng.choice([1, 2]))
             k = rng.randrange(len(ops))
-            variables, _ = dg.variables_for(opvars[k], invalid=0.15)
-            pool.append((q, ops[k][1], variables))
+            for _ in range(3):        # the same document with different variables (shared cached AST)
+                variables, _ = dg.variables_for(opvars[k], invalid=0.15)
+                pool.append((q, ops[k][1], variables))
         pool += [(INTROSPECTION, None, None), ("{ __typename ", None, None), ("{ nope }", None, None), (pool[0][0], "Unknown", None)]
         def solo(engine_b, req, idx=0):
             hub = MultiHub(1)
